@@ -11,8 +11,9 @@
    maps, declaration maps) are observed by the repeated runs of
    lib/props/C17.py only. *)
 From Coq Require Import ZArith NArith List Bool Arith Permutation String.
-Require Import Model.Base Gen.Category Model.Runner Model.RunnerSrc
-               Spec.RunnerSpec Spec.RunnerSrcSpec Proofs.RunnerProofs Proofs.RunnerSrcProofs.
+Require Import Model.Base Gen.Category Model.Runner Model.RunnerSrc Model.RunnerLib
+               Spec.RunnerSpec Spec.RunnerSrcSpec Proofs.RunnerProofs Proofs.RunnerSrcProofs Proofs.RunnerLibProofs
+               Proofs.RunnerFileIds.
 Require Model.Ast Model.Desugar Proofs.DesugarOrder.
 Import ListNotations.
 
@@ -62,29 +63,15 @@ Print Assumptions C17_lookups_keep_invariant.
    differs) is recorded and a run with fewer than 5 is a violation.
 
    CONSEQUENCES OF THE INTERFACE (they hold for the real tool only as far as that
-   assumption does): C17_findings_unchanged_by_unreferenced,
-   C17_findings_unchanged_by_reordering, and the whole-project theorems
+   assumption does): the whole-project theorems
    C17_unreferenced_definitions_irrelevant, C17_included_definitions_irrelevant,
    C17_definitions_reordered below.  What they add to the interface is how the
-   ANSWERS behave: [answer_of] over an extended / permuted library, and (for the
-   whole-project ones) that the runner's caches give those answers in every state
-   and that the display is assembled per definition. *)
-
-(* definitions that [d] does not look up may be added (read left to right) or
-   removed (right to left) without changing the findings of [d] *)
-Theorem C17_findings_unchanged_by_unreferenced : forall ds extra d,
-  (forall x, In x extra -> ~ (s_kind x = KTemplate /\ In (s_name x) (s_refs d))) ->
-  produced_def (inst (ds ++ extra) d) = produced_def (inst ds d).
-Proof. exact findings_unchanged_by_unreferenced. Qed.
-Print Assumptions C17_findings_unchanged_by_unreferenced.
-
-(* the maps enumerated in another order (definitions reordered in their files,
-   files given in another order) *)
-Theorem C17_findings_unchanged_by_reordering : forall ds ds' d,
-  NoDup (map s_key ds) -> Permutation ds ds' ->
-  produced_def (inst ds d) = produced_def (inst ds' d).
-Proof. exact findings_unchanged_by_reordering. Qed.
-Print Assumptions C17_findings_unchanged_by_reordering.
+   ANSWERS behave: [answer_of] over an extended / permuted library, that the
+   runner's caches give those answers in every state and that the display is
+   assembled per definition.  (The per-definition statements
+   findings_unchanged_by_unreferenced / _by_reordering are one-step unfoldings of
+   [inst] over find_sdef_app / find_sdef_perm: lemmas of Proofs.RunnerSrcProofs,
+   not obligations.) *)
 
 (* the runner's caches answer a lookup as the source level says, in every state
    the runner can be in: Ok exactly when the template exists and lifts *)
@@ -212,46 +199,78 @@ Theorem C17_desugar_tracking_variant_order_dependent :
 Proof. exact DesugarOrder.tracking_variant_order_dependent. Qed.
 Print Assumptions C17_desugar_tracking_variant_order_dependent.
 
-(* the order in which the files were parsed (order of the parser's reports,
-   order in which TemplateLibrary::new inserts the definitions): irrelevant,
-   unless two sources share a name (known finding D22) *)
-Theorem C17_file_order_irrelevant : forall parse1 parse2 srcs1 srcs2 user o order1 order2,
-  Permutation parse1 parse2 -> Permutation srcs1 srcs2 ->
-  KF_duplicate_definition_b srcs1 = false ->
-  let p1 := mkProject parse1 (build_library srcs1) user in
-  let p2 := mkProject parse2 (build_library srcs2) user in
+(* ---- the name maps built from the parsed files (Model.RunnerLib: the code of
+   TemplateLibrary::new / ProgramArchive::new / Merger after the repair of D22,
+   /repo f1ec9dc) ----------------------------------------------------------------- *)
+
+(* `collect(); sort_unstable_by_key(file_id)`: whatever order the
+   HashMap<FileID, Vec<Definition>> is iterated in, the same sequence of files *)
+Theorem C17_files_sorted_the_same_for_every_map_order : forall es1 es2,
+  NoDup (map fst es1) -> Permutation es1 es2 -> sort_entries es1 = sort_entries es2.
+Proof. exact sort_entries_order_irrelevant. Qed.
+Print Assumptions C17_files_sorted_the_same_for_every_map_order.
+
+(* ... hence the same name maps and the same definitions blamed as duplicates,
+   DUPLICATED NAMES INCLUDED (no carve-out any more) *)
+Theorem C17_library_same_for_every_map_order : forall es1 es2,
+  NoDup (map fst es1) -> Permutation es1 es2 ->
+  library_of es1 = library_of es2 /\ duplicates_of es1 = duplicates_of es2.
+Proof. exact library_order_irrelevant. Qed.
+Print Assumptions C17_library_same_for_every_map_order.
+
+(* a name denotes the FIRST definition in (file id, source position) order,
+   function or template alike *)
+Theorem C17_library_keeps_first_definition : forall es n,
+  first_named n (library_of es) = first_named n (definitions_in_file_order es).
+Proof. exact library_keeps_first_definition. Qed.
+Print Assumptions C17_library_keeps_first_definition.
+
+(* the hypothesis [wf_project] of the runner theorems holds for every project
+   the tool can build: it is not an assumption about the input *)
+Theorem C17_library_is_well_formed : forall parse es user,
+  wf_project (mkProject parse (library_of es) user).
+Proof. exact library_wf. Qed.
+Print Assumptions C17_library_is_well_formed.
+
+(* whole runs: the order of the map of parsed files, the order of the parser's
+   reports and the order of the name maps are all irrelevant; [NoDup (map fst es1)]
+   says that [es1] lists the entries of a map (FileIDs are its keys) *)
+Theorem C17_file_order_irrelevant : forall parse1 parse2 es1 es2 user o order1 order2,
+  NoDup (map fst es1) -> Permutation es1 es2 -> Permutation parse1 parse2 ->
+  let p1 := mkProject parse1 (library_of es1) user in
+  let p2 := mkProject parse2 (library_of es2) user in
   analysis_order p1 order1 -> analysis_order p2 order2 ->
   Permutation (res_shown (run_keys p1 o order1)) (res_shown (run_keys p2 o order2)) /\
-  res_exit (run_keys p1 o order1) = res_exit (run_keys p2 o order2).
-Proof. exact file_order_irrelevant. Qed.
+  res_exit (run_keys p1 o order1) = res_exit (run_keys p2 o order2) /\
+  duplicates_of es1 = duplicates_of es2.
+Proof. exact file_order_irrelevant_lib. Qed.
 Print Assumptions C17_file_order_irrelevant.
 
-(* the carve-out is decidable and narrow: exactly a repeated (kind, name) *)
-Theorem C17_KF_duplicate_definition_decides : forall srcs,
-  KF_duplicate_definition_b srcs = false <-> NoDup (map d_key srcs).
-Proof. exact KF_duplicate_definition_decides. Qed.
-Print Assumptions C17_KF_duplicate_definition_decides.
+(* files given in another order are NUMBERED differently (FileLibrary hands out
+   consecutive FileIDs as the files are read): every [d_file], every
+   primary-label file of every report and the list of user inputs change
+   together.  Renumbering by any injective map changes nothing but those
+   numbers: the same findings are displayed (with their files renumbered), the
+   same exit status.  (C17_file_order_irrelevant above keeps the FileIDs fixed.) *)
+Theorem C17_file_ids_are_names : forall f p o order order',
+  (forall x y, f x = f y -> x = y) ->
+  wf_project p -> analysis_order p order -> analysis_order p order' ->
+  Permutation (res_shown (run_keys (rn_project f p) o order'))
+              (map (rn_report f) (res_shown (run_keys p o order))) /\
+  res_exit (run_keys (rn_project f p) o order') = res_exit (run_keys p o order).
+Proof. exact file_ids_renumbered. Qed.
+Print Assumptions C17_file_ids_are_names.
 
-(* and inside it the full statement is false: known finding D22 *)
-Definition C17_file_order_full_statement : Prop :=
-  forall srcs1 srcs2 user o order,
-    Permutation srcs1 srcs2 ->
-    analysis_order (mkProject [] (build_library srcs1) user) order ->
-    analysis_order (mkProject [] (build_library srcs2) user) order ->
-    Permutation (res_shown (run_keys (mkProject [] (build_library srcs1) user) o order))
-                (res_shown (run_keys (mkProject [] (build_library srcs2) user) o order)).
+Example C17_file_ids_swap_is_injective : forall x y, swap01 x = swap01 y -> x = y.
+Proof. exact swap01_injective. Qed.
 
-Theorem C17_KF_duplicate_definition_refuted :
-  exists srcs1 srcs2 user o order,
-    Permutation srcs1 srcs2 /\ KF_duplicate_definition_b srcs1 = true /\
-    analysis_order (mkProject [] (build_library srcs1) user) order /\
-    analysis_order (mkProject [] (build_library srcs2) user) order /\
-    ~ Permutation (res_shown (run_keys (mkProject [] (build_library srcs1) user) o order))
-                  (res_shown (run_keys (mkProject [] (build_library srcs2) user) o order)) /\
-    res_exit (run_keys (mkProject [] (build_library srcs1) user) o order) <>
-    res_exit (run_keys (mkProject [] (build_library srcs2) user) o order).
-Proof. exact file_order_refuted_with_duplicates. Qed.
-Print Assumptions C17_KF_duplicate_definition_refuted.
+(* non-vacuity with a duplicated name: both orders of the map keep the
+   definitions of file 0 and blame those of file 1 *)
+Example C17_duplicates_first_file_kept :
+  library_of [(1%Z, [ex_b; ex_g]); (0%Z, [ex_a; ex_f])] = [ex_a; ex_f] /\
+  library_of [(0%Z, [ex_a; ex_f]); (1%Z, [ex_b; ex_g])] = [ex_a; ex_f] /\
+  duplicates_of [(1%Z, [ex_b; ex_g]); (0%Z, [ex_a; ex_f])] = [(ex_b, ex_a); (ex_g, ex_f)].
+Proof. exact duplicates_first_file_kept. Qed.
 
 (* non-vacuity: two orders of a project in which U looks T up *)
 Definition ex_shadow : report := mkReport Warning 1 1 [0%Z] 100.
